@@ -887,7 +887,9 @@ def _static_or_list(interp, v, state):
     if isinstance(v, Ref):
         o = interp.obj(state, v)
         if o.kind == 'list' and not o.more:
-            return list(o.items)
+            items = list(o.items)
+            _exhaust(interp, v, o, state)
+            return items
     return static_sequence(interp, v, state)
 
 
@@ -1067,6 +1069,18 @@ def int_to_bytes(interp, v, args, kwargs, state, node):
 
 def _int_to_bytes_call(interp, args, kwargs, state, node):
     return int_to_bytes(interp, args[0], args[1:], kwargs, state, node)
+
+
+def _object_setattr(interp, args, kwargs, state, node):
+    obj, name, v = args[0], args[1], args[2]
+    if not isinstance(name, str):
+        interp.effect('setattr-dynamic', _t(obj), T.show(name), node)
+        return None
+    if isinstance(obj, Ref):
+        interp.raw_set_attr(obj, name, v, state, node)
+    else:
+        interp.effect('setattr-sym', _t(obj), name, node)
+    return None
 
 
 def _sys_intern(interp, args, kwargs, state, node):
@@ -1433,6 +1447,7 @@ _EXT_CALLS = {
     'builtins.divmod': _b_divmod,
     'itertools.groupby': _it_groupby, 'sys.intern': _sys_intern,
     'builtins.int.to_bytes': _int_to_bytes_call,
+    'builtins.object.__setattr__': _object_setattr,
     'functools.partial': _fn_partial, 'functools.reduce': _fn_reduce,
     'operator.attrgetter': _op_factory('attrgetter'),
     'operator.itemgetter': _op_factory('itemgetter'),
@@ -1706,6 +1721,13 @@ def list_extend(interp, ref, rhs, state, node):
 # sequences
 
 
+def _exhaust(interp, ref, o, state):
+    """Reading the elements of a generator object leaves it empty."""
+    if getattr(o, 'gen', False) and ref.id in state.store and o.items:
+        state.store[ref.id] = _i().ListObj((), o.more, o.shared, o.origin,
+                                           o.source, gen=True)
+
+
 def static_sequence(interp, v, state):
     """Elements of v when it is a compile-time sequence, else None."""
     if isinstance(v, tuple):
@@ -1715,7 +1737,9 @@ def static_sequence(interp, v, state):
         if o.kind == 'list' and not o.more and \
                 not any(isinstance(i, Sym) and i.op == 'opt'
                         for i in o.items):
-            return list(o.items)
+            items = list(o.items)
+            _exhaust(interp, v, o, state)
+            return items
         if o.kind == 'dict' and not o.more:
             return [k for k, _ in o.items]
         return None
